@@ -225,6 +225,7 @@ class Report:
             samples.append({k: o[k] for k in ("id", "function", "layer", "backend", "status", "seconds", "where", "detail")})
         cov = dict(
             obligations=n_obl, discharged=n_dis,
+            bounded_obligations=len(nb), bounded_discharged=sum(1 for o in nb if o["status"] == "discharged"),
             checker_cmd=" ;; ".join(self.cmds) or "n/a",
             trusted_base=self.trusted,
             samples=samples,
@@ -259,7 +260,7 @@ class Report:
             for u in self.undecided[:20]:
                 print("UNDECIDED: " + u, file=sys.stderr)
             return 2
-        if n_obl == 0:
+        if n_obl == 0 and not (self.level != "proof" and nb and all(o["status"] == "discharged" for o in nb)):
             print("UNDECIDED: no obligations generated", file=sys.stderr)
             return 2
         return 0
